@@ -25,9 +25,11 @@ class Transport:
         self.max_read = None          # optional cap on bytes per read
         self.on_write = None          # harness callback(transport, bytes) e.g. a simulated server
         self.blocked = False          # async: stream exhausted but more may come later
+        self.limit = None             # bytes released to the client so far (None = everything written is readable)
+        self.max_write = None
     def avail(self):
         """bytes deliverable by the next read"""
-        end = len(self.stream)
+        end = len(self.stream) if self.limit is None else min(len(self.stream), self.limit)
         for c in self.cuts:
             if c > self.pos:
                 end = min(end, c)
